@@ -470,12 +470,6 @@ class EncodedTextSpec(Spec):
             except ValueError as e:
                 err = e
             else:
-                # Older id3 did not support multiple values, but we still
-                # read them. To not missinterpret zero padded values with
-                # a list of empty strings, stop if everything left is zero.
-                # https://github.com/quodlibet/mutagen/issues/276
-                if header.version < header._V24 and not data.strip(b"\x00"):
-                    data = b""
                 return value, data
         raise SpecError(err)
 
@@ -507,6 +501,12 @@ class MultiSpec(Spec):
                 values.append(record)
             else:
                 values.append(record[0])
+            # Older id3 did not support multiple values, but we still
+            # read them. To not missinterpret zero padded values with
+            # a list of empty strings, stop if everything left is zero.
+            # https://github.com/quodlibet/mutagen/issues/276
+            if header.version < header._V24 and not data.strip(b"\x00"):
+                data = b""
         return values, data
 
     def write(self, config, frame, value):
